@@ -205,7 +205,11 @@ func (c *Ctx) report(pd *propDef, tier string, seed int, wall float64, writeEvid
 			ok++
 		case "known-finding":
 			knownN++
-			fmt.Printf("KNOWN-FINDING: property=%s %s: %s [%s]\n", c.prop, o.Construct, o.Detail, o.Rule)
+			d := o.Detail
+			if len(d) > 260 {
+				d = d[:260] + "… (full text in known_findings.json)"
+			}
+			fmt.Printf("KNOWN-FINDING: property=%s %s: %s [%s]\n", c.prop, o.Construct, d, o.Rule)
 		default:
 			viol++
 			violRecs = append(violRecs, o)
